@@ -78,6 +78,33 @@ pub fn gen(a: &Args) -> i32 {
                 }
                 writeln!(out, "txn {}", ws.join(" ")).unwrap();
                 st.bump("op_txn");
+            } else if x < 42 && open.len() < 4 && r.chance(1, 5) {
+                // a reader whose begin() is caught between reading the visible sequence number and registering its snapshot
+                // while a transaction overwrites keys and everything is flushed and compacted down
+                let point = if r.chance(1, 2) { "txn.loaded_seq" } else { "txn.registered" };
+                let mut ws = vec![];
+                let mut ks = vec![];
+                for _ in 0..r.range(1, 2) {
+                    let k = hex(KEYS[r.below(nk as u64) as usize]);
+                    if ks.contains(&k) {
+                        continue;
+                    }
+                    if r.chance(1, 4) {
+                        ws.push(format!("{k}=DEL"));
+                    } else {
+                        vctr += 1;
+                        ws.push(format!("{k}={}", hex(format!("v{vctr}").as_bytes())));
+                    }
+                    ks.push(k);
+                }
+                writeln!(out, "beginover {next_reader} {point} {}", ws.join(" ")).unwrap();
+                for k in &ks {
+                    writeln!(out, "get {next_reader} {k}").unwrap();
+                }
+                open.push(next_reader);
+                next_reader += 1;
+                placements += 1;
+                st.bump("op_begin_during_overwrite_flush_compaction");
             } else if x < 42 && open.len() < 4 {
                 // readers opened back to back share a start point
                 let burst = if r.chance(1, 3) { 2 } else { 1 };
@@ -176,6 +203,8 @@ fn build(path: &std::path::Path, o: (u8, usize, bool, usize, u64)) -> Tree {
     TreeBuilder::with_options(opts).build().expect("build")
 }
 
+thread_local! { static BEGINNER: std::cell::Cell<bool> = std::cell::Cell::new(false); }
+
 pub fn exec(a: &Args) -> i32 {
     let rt = tokio::runtime::Builder::new_multi_thread().worker_threads(2).enable_all().build().unwrap();
     let _g = rt.enter();
@@ -223,6 +252,68 @@ pub fn exec(a: &Args) -> i32 {
                     match rt.block_on(t.commit()) {
                         Ok(()) => "ok".into(),
                         Err(e) => format!("err:{}", err_name(&e)),
+                    }
+                }
+                Some("beginover") => {
+                    let s = st.as_mut().unwrap();
+                    let id: u64 = w[1].parse().unwrap();
+                    let point = w[2].to_string();
+                    let tree: &Tree = s.tree.as_ref().unwrap();
+                    let addr = tree as *const Tree as usize;
+                    // 0 idle, 1 reader parked inside begin(), 2 released
+                    let state = std::sync::Arc::new(std::sync::atomic::AtomicU8::new(0));
+                    let st2 = std::sync::Arc::clone(&state);
+                    surrealkv::verif::set_yield_handler(Some(std::sync::Arc::new(move |name: &'static str| {
+                        use std::sync::atomic::Ordering::SeqCst;
+                        if name == point && BEGINNER.with(|m| m.get()) && st2.compare_exchange(0, 1, SeqCst, SeqCst).is_ok() {
+                            let t0 = std::time::Instant::now();
+                            while st2.load(SeqCst) != 2 && t0.elapsed() < std::time::Duration::from_secs(20) {
+                                std::thread::sleep(std::time::Duration::from_micros(200));
+                            }
+                        }
+                    })));
+                    let h = std::thread::spawn(move || {
+                        BEGINNER.with(|m| m.set(true));
+                        // SAFETY: the tree outlives this thread, which is joined below
+                        let t: &Tree = unsafe { &*(addr as *const Tree) };
+                        t.begin()
+                    });
+                    let t0 = std::time::Instant::now();
+                    while state.load(std::sync::atomic::Ordering::SeqCst) != 1 && t0.elapsed() < std::time::Duration::from_secs(5) {
+                        std::thread::sleep(std::time::Duration::from_micros(200));
+                    }
+                    // the overwriting transaction, then everything down to the last level
+                    let r = (|| -> Result<(), String> {
+                        let mut t = tree.begin().map_err(|e| err_name(&e))?;
+                        for wr in &w[3..] {
+                            let (k, v) = wr.split_once('=').unwrap();
+                            let k = unhex(k);
+                            match v {
+                                "DEL" => t.delete(k),
+                                "SDEL" => t.soft_delete(k),
+                                _ => t.set(k, unhex(v)),
+                            }
+                            .map_err(|e| err_name(&e))?;
+                        }
+                        rt.block_on(t.commit()).map_err(|e| err_name(&e))?;
+                        drop(t); // its snapshot must not stand in for the reader's during the compaction
+                        vs::rotate(tree).and_then(|_| vs::flush_immutables(tree))?;
+                        for _ in 0..s.opts.0 {
+                            vs::compact_round_eager(tree)?;
+                        }
+                        Ok(())
+                    })();
+                    state.store(2, std::sync::atomic::Ordering::SeqCst);
+                    let reader = h.join();
+                    surrealkv::verif::set_yield_handler(None);
+                    match (r, reader) {
+                        (Ok(()), Ok(Ok(t))) => {
+                            s.readers.insert(id, t);
+                            "ok".into()
+                        }
+                        (Err(e), _) => format!("err:{}", e.replace(' ', "_")),
+                        (_, Ok(Err(e))) => format!("err:begin:{}", err_name(&e)),
+                        (_, Err(_)) => "err:begin-thread-panicked".into(),
                     }
                 }
                 Some("begin") => {
